@@ -348,6 +348,54 @@ theorem setWord_error {ws : List Nat} {i v : Nat} {e : Fault} (h : setWord ws i 
   split at h <;> cases h
   intro h'; cases h'
 
+/-! ### loops that rewrite every word -/
+
+/-- a loop that applies `g` to the words 0 … n-1, one after the other -/
+theorem foldlM_updWord_prefix (g : Nat → Nat) (ws : List Nat) :
+    ∀ n, n ≤ ws.length →
+      (List.range' 0 n).foldlM (fun ws i => updWord ws i g) ws = .ok ((ws.take n).map g ++ ws.drop n) := by
+  intro n
+  induction n with
+  | zero => intro _; simp [pure, Except.pure]
+  | succ n ih =>
+    intro h
+    rw [List.range'_1_concat, List.foldlM_append, ih (by omega)]
+    simp only [bind, Except.bind, List.foldlM, Nat.zero_add, pure, Except.pure]
+    have hl : n < ((ws.take n).map g ++ ws.drop n).length := by simp; omega
+    unfold updWord
+    rw [List.getElem?_eq_getElem hl]
+    simp only []
+    congr 1
+    apply List.ext_getElem
+    · simp; omega
+    · intro i h1 h2
+      simp only [List.getElem_set, List.getElem_append, List.length_map, List.length_take, List.getElem_map, List.getElem_take, List.getElem_drop]
+      by_cases hi : i < n
+      · have : ¬ n = i := by omega
+        simp [this, hi, Nat.min_eq_left (by omega : n ≤ ws.length), Nat.min_eq_left (by omega : n + 1 ≤ ws.length)]
+        omega
+      · by_cases hn : n = i
+        · subst hn
+          simp [Nat.min_eq_left (by omega : n ≤ ws.length), Nat.min_eq_left (by omega : n + 1 ≤ ws.length)]
+        · have h3 : ¬ i < n + 1 := by omega
+          simp [hn, hi, h3, Nat.min_eq_left (by omega : n ≤ ws.length), Nat.min_eq_left (by omega : n + 1 ≤ ws.length)]
+          congr 1; omega
+
+theorem foldlM_updWord_all (g : Nat → Nat) (ws : List Nat) :
+    (List.range' 0 ws.length).foldlM (fun ws i => updWord ws i g) ws = .ok (ws.map g) := by
+  rw [foldlM_updWord_prefix g ws ws.length (Nat.le_refl _)]; simp
+
+/-- `ws[i] = v` as a read-modify-write that ignores what it read (same index check) -/
+theorem setWord_eq_updWord (ws : List Nat) (i v : Nat) : setWord ws i v = updWord ws i (fun _ => v) := by
+  unfold setWord updWord
+  by_cases h : i < ws.length
+  · simp [h]
+  · simp [h]
+
+/-- Go `copy` on word slices is the model's `copyInto` -/
+theorem copyL_words (d s : List Nat) : copyL (words d) (words s) = words (copyInto d s) := by
+  simp [copyL, copyInto, words, List.map_take, List.map_drop]
+
 /-! ### the specified `math/bits` functions are the model's -/
 
 theorem revBits_eq (n w : Nat) : GoM.revBits n w = Bits.revBits n w := by
